@@ -553,9 +553,9 @@ func main() {
 	// ---- member sets through the constructors ----
 	nRound := o.Count(700, 15000)
 	for i := 0; i < nRound; i++ {
-		n := r.Intn(6)
-		if r.Chance(1, 12) {
-			n = r.Intn(3)
+		n := r.Intn(5) + 1
+		if r.Chance(1, 40) {
+			n = 0
 		}
 		var ms []cMember
 		for j := 0; j < n; j++ {
